@@ -144,6 +144,12 @@ def directed(rng):
         pods = [dc.pod("p1", "c1", cpu=1500)]
         during = [{"a": "SetOffering", "type": typ, "zone": z, "ct": ct, "price": -1, "available": False} for z in ("zone-a", "zone-b")]
         add("ice-%s-%s" % (typ, ct), nodes, pods, during)
+    # G: a pod with a positive eviction cost lands on an "empty" node while the emptiness command waits
+    for kind in ("costly", "zero-cost", "daemon"):
+        nodes = [dc.node("c1", "pa", "t2"), dc.node("c2", "pa", "t2")]
+        pods = [dc.pod("z1", "c1", cpu=300, deletionCost=dc.ZERO_COST)]
+        kw = {"costly": {}, "zero-cost": {"deletionCost": dc.ZERO_COST}, "daemon": {"owner": "daemonset"}}[kind]
+        add("empty-" + kind, nodes, pods, [late(400, node="c2", **kw)], method="emptiness", expect="valid" if kind != "costly" else "partial")
     # E: the only room is on a node that is not initialized yet / a pod of the removed node cannot be scheduled anywhere
     for stage in ("registered", "initialized"):
         nodes = [dc.node("c1", "pa", "t3"), dc.node("r", "pr", "t3", stage=stage)]
@@ -168,6 +174,17 @@ def directed(rng):
             out.append(scenario("reserved:%d:%d:%s:%s" % (rprice, rcap, avail, ct), cat, [dc.pool("pa")], nodes, pods,
                                 [{"a": "Method", "method": "multi"}, {"a": "Method", "method": "single"}, {"a": "Round"}],
                                 {"kind": "directed", "case": "reserved"}, s2s=True))
+    # H: the price table changes while the command waits (F-C06-2: validation re-simulates scheduling but never re-prices)
+    def reprice(types, ct, units):
+        return [{"a": "SetOffering", "type": t, "zone": z, "ct": ct, "price": units * PRICE_UNIT, "available": True}
+                for t in types for z in ("zone-a", "zone-b")]
+    for name, during in (("options-dearer", reprice(("t1", "t2", "t3"), "spot", 20)),        # every option now above the node's price
+                         ("node-cheaper", reprice(("t3",), "on-demand", 1)),                # the removed node's own offering drops to the cheapest
+                         ("options-cheaper", reprice(("t1", "t2"), "spot", 0)),              # benign: the options got cheaper still
+                         ("other-type-dearer", reprice(("t3",), "spot", 30))):               # t3 spot was an option; now far dearer
+        nodes = [dc.node("c1", "pa", "t3")]
+        pods = [dc.pod("p1", "c1", cpu=1500)]
+        add("reprice-" + name, nodes, pods, during)
     # D: the pod on the removed node disappears while the command waits (witness mentions a pod that is gone)
     nodes = [dc.node("c1", "pa", "t3")]
     pods = [dc.pod("p1", "c1", cpu=1500), dc.pod("p1b", "c1", cpu=300)]
@@ -229,6 +246,15 @@ def explore(rng, n, tag="explore"):
             reqs.append({"key": "node.kubernetes.io/instance-type", "op": "Exists", "values": [],
                          "minValues": rng.choice([2, 3, 5, 18]) if big else rng.choice([2, 3])})
         pools = [dc.pool("pa", policy=policy, requirements=reqs), dc.pool("pr")]
+        two_pools = rng.random() < 0.25
+        if two_pools:    # a second pool of candidates: other zone / capacity-type restrictions, a weight
+            reqs_b = []
+            if rng.random() < 0.5:
+                reqs_b.append({"key": "karpenter.sh/capacity-type", "op": "In", "values": [rng.choice(["on-demand", "spot"])]})
+            if rng.random() < 0.4:
+                reqs_b.append({"key": "topology.kubernetes.io/zone", "op": "In", "values": [rng.choice(zones)]})
+            pools.append(dc.pool("pb", policy=rng.choice(["WhenEmptyOrUnderutilized", "Balanced"]), requirements=reqs_b,
+                                 weight=rng.choice([0, 5, 50])))
         nodes, pods = [], []
         nn = rng.randint(1, 5)
         spotty = rng.random() < 0.5
@@ -243,7 +269,7 @@ def explore(rng, n, tag="explore"):
                     o = rng.choice(sp)
                     ct = want
             nm = "n%d" % j
-            nodes.append(dc.node(nm, "pa", t["name"], zone=o["zone"], ct=ct))
+            nodes.append(dc.node(nm, "pb" if two_pools and rng.random() < 0.4 else "pa", t["name"], zone=o["zone"], ct=ct))
             room = t["cpu"]
             r = rng.random()
             npods = 0 if r < 0.12 else rng.randint(1, 3)
@@ -262,6 +288,8 @@ def explore(rng, n, tag="explore"):
                     kw["deletionCost"] = dc.ZERO_COST
                 if rng.random() < 0.08:
                     kw["owner"] = rng.choice(["daemonset", "statefulset"])
+                if rng.random() < 0.15:
+                    kw["tol"] = [{"key": "dedicated", "op": "Exists", "value": "", "effect": ""}]
                 pods.append(dc.pod("p%d-%d" % (j, q), nm, cpu=cpu, **kw))
         # remaining nodes (destinations that are not candidates): protected pod, sometimes tainted / nearly full
         for j in range(rng.randint(0, 2)):
@@ -274,6 +302,19 @@ def explore(rng, n, tag="explore"):
             nodes.append(dc.node(nm, "pr", t["name"], zone=o["zone"], ct=o["ct"], **kw))
             free = rng.choice([0, 300, 1000, t["cpu"] // 2])
             pods.append(dc.pod("fill%d" % j, nm, cpu=max(100, t["cpu"] - free), dnd="true"))
+        # other traffic that competes for the same room: pending pods, pods of a node that is already on its way out,
+        # a node that has not initialized yet
+        for j in range(rng.choice([0, 0, 0, 1, 2])):
+            pods.append(dc.pod("pend%d" % j, "", cpu=rng.choice([200, 800, 1500])))
+        if rng.random() < 0.15:
+            t = rng.choice(cat)
+            o = rng.choice(t["offerings"])
+            nodes.append(dc.node("gone", "pr", t["name"], zone=o["zone"], ct=o["ct"], **rng.choice([{"marked": True}, {"deleting": True}])))
+            pods.append(dc.pod("pg", "gone", cpu=rng.choice([300, 1200])))
+        if rng.random() < 0.15:
+            t = rng.choice(cat)
+            o = rng.choice(t["offerings"])
+            nodes.append(dc.node("fresh", "pr", t["name"], zone=o["zone"], ct=o["ct"], stage=rng.choice(["registered", "launched"])))
         methods = ["multi", "single", "emptiness"]
         rng.shuffle(methods)
         steps = [{"a": "Method", "method": m} for m in methods] + [{"a": "Round"}]
